@@ -293,14 +293,13 @@ Proof. intros H. rewrite no_space_eq. split; up; auto. eapply ext_logs; [reflexi
 Lemma reserve_blk d b w n : c_in_ts (w_c w) = b -> blk (evok b) b w (snd (reserve d w n)).
 Proof.
   intros H.
-  apply (reserve_inv d (fun w' => blk (evok b) b w w')); [| | | | |apply blk_refl; auto].
+  apply (reserve_inv d (fun w' => blk (evok b) b w w')); [| | | |apply blk_refl; auto].
   - intros w' B. eapply blk_trans; [exact B|]. apply full_cb_blk, B.
   - intros w' B. eapply blk_trans; [exact B|].
     apply with_use_ts_blk; [intros; apply open_cb_blk; auto|apply B].
   - intros w' B. eapply blk_trans; [exact B|].
     apply with_use_ts_blk; [intros; apply close_cb_blk; auto|apply B].
   - intros w' B. eapply blk_trans; [exact B|]. apply no_space_blk, B.
-  - intros w' B. eapply blk_trans; [exact B|]. apply fail_blk; [apply B|cbn; auto].
 Qed.
 
 Lemma ser_parts_blk d ps w : c_in_ts (w_c w) = true -> blk stok true w (ser_parts d w ps).
@@ -373,8 +372,14 @@ Proof.
   { split; [up; reflexivity|]. eapply ext_eq_log_r; [|exact E']. reflexivity. }
   destruct (w_err (snd r)) eqn:Ee.
   { split; [congruence|exact E']. }
-  destruct (trace_ser_blk d e args (snd r) A) as [A2 E2]. split; auto.
-  eapply ext_trans; eauto.
+  match goal with |- context [trace_recheck d e args ?a ?x] =>
+    destruct (trace_recheck_cases d e args a x) as [C|[C|(_ & a2 & _ & _ & C)]]; rewrite C; cbn [fst snd negb] end.
+  - destruct (trace_ser_blk d e args (snd r) A) as [A2 E2]. split; auto.
+    eapply ext_trans; eauto.
+  - split; [up; discriminate|]. eapply ext_trans; [exact E'|].
+    eapply ext_logs; [reflexivity|]. repeat constructor.
+  - split; [intros _; reflexivity|]. eapply ext_trans; [exact E'|].
+    eapply ext_logs; [reflexivity|]. repeat constructor.
 Qed.
 
 (* C16 (b): the log segment of one tracing call is the entry clock sample (flag as on entry)
@@ -469,7 +474,6 @@ Proof.
   apply (reserve_inv d (fun w' => c_use_ts (w_c w') = false)); intros w' H'; try reflexivity.
   - rewrite full_cb_eq. up. togs. exact H'.
   - exact H'.
-  - exact H'.
 Qed.
 
 Lemma ser_parts_use d ps w : c_use_ts (w_c (ser_parts d w ps)) = c_use_ts (w_c w).
@@ -489,6 +493,9 @@ Proof.
   match goal with |- context [reserve d ?w0 ?n] =>
     pose proof (reserve_use d w0 n H1) as H2; set (r := reserve d w0 n) in * end.
   destruct (negb (fst r)); [up; exact H2|]. destruct (w_err (snd r)); [exact H2|].
+  match goal with |- context [trace_recheck d e args ?a ?x] =>
+    destruct (trace_recheck_cases d e args a x) as [C|[C|(_ & a2 & _ & _ & C)]]; rewrite C; cbn [fst snd negb] end;
+    [|exact H2|exact H2].
   unfold trace_ser. cbv zeta.
   match goal with |- context [ser_parts d ?w1 ?ps] =>
     assert (H3 : c_use_ts (w_c (ser_parts d w1 ps)) = false) end.
